@@ -11,6 +11,7 @@ RULE = ("random statement sequences (1-8 statements) over 6 variable names (two 
         "are compared with the model; `x op= e` is also compared with `x = x op e` on equal contexts. distinct class = (assignment operator, old "
         "value class, new value class, outcome)")
 VARS = ["a", "b", "c", "d", "max", "sum"]
+FN_TARGETS = ["rate", "quota"]  # bound to context functions: reading the target calls the function
 SETTERS = gen.SETTER_OPS
 FAILING = [["bin", "/", ["num", "1", 0], ["num", "0", 0]], ["bin", "+", ["ref", "nil"], ["num", "1", 0]], ["fn", "nosuch", []], ["un", "!", ["num", "1", 0]], ["fn", "min", []]]
 INIT_VALUES = [["n", "0", 0], ["n", "5", 0], ["n", "-3", 0], ["n", "25", 1], ["n", "30", 1], ["b", True], ["s", "ab"], ["s", ""], ["l", [["n", "1", 0], ["s", "a"]]], ["l", []], ["m", [[["s", "k"], ["n", "1", 0]]]], ["z"], ["n", "79228162514264337593543950335", 0], ["n", "9223372036854775807", 0]]
@@ -67,7 +68,7 @@ class AsgGen:
         op = "=" if x < 0.3 else (r.choice(["+=", "-=", "*=", "/=", "%="]) if x < 0.8 else r.choice(SETTERS))
         tk = gen.wchoice(r, [("name", 40), ("num", 0.4), ("call", 0.3), ("list", 0.3), ("expr", 0.3)])
         if tk == "name":
-            target = ["ref", r.choice(VARS)]
+            target = ["ref", r.choice(VARS) if r.random() < 0.93 else r.choice(FN_TARGETS)]
         elif tk == "num":
             target = ["num", "1", 0]
         elif tk == "call":
@@ -124,7 +125,7 @@ def run_shard(desc):
     rnd = common.rng(PROP, kind, si)
     g = AsgGen(rnd)
     part = {"evaluations": 0, "classes": set(), "violations": [], "samples": [], "abstained": 0, "inconclusive": [], "counts": {"wl_" + kind: 0, "failed_midway": 0}}
-    fns = {"last": {"id": 9, "log": False, "ret": "last"}}
+    fns = {"last": {"id": 9, "log": False, "ret": "last"}, "rate": {"id": 10, "log": False, "ret": "const", "v": ["n", "12", 0]}, "quota": {"id": 11, "log": False, "ret": "const", "v": ["n", "25", 1]}}
     if kind == "seq":
         progs = []
         for _ in range(n):
@@ -165,7 +166,7 @@ def run_shard(desc):
             e = g.expr(rnd.randint(0, 2))
             if has_assign(e):
                 e = g.tg.leaf("N")
-            x = rnd.choice(VARS)
+            x = rnd.choice(VARS) if rnd.random() < 0.85 else rnd.choice(FN_TARGETS)
             t1 = ["stmt", [["bin", op, ["ref", x], e], ["ref", x]]]
             t2 = ["stmt", [["bin", "=", ["ref", x], ["bin", op[:-1], ["ref", x], e]], ["ref", x]]]
             vars_ = g.init_ctx()
@@ -199,7 +200,7 @@ def run_shard(desc):
 
 def run(rep, tier):
     rep.rule = RULE
-    rep.assumptions = ["assignment targets bound to a context *function* are not generated (left open by the statement)", "which error variant is returned is not compared"]
+    rep.assumptions = ["an assignment target bound to a context function is read by calling it (as `x op e` would) and is then rebound as a variable", "which error variant is returned is not compared"]
     common.build("verifdbg")
     common.build("release")
     n = 100000 if tier == "quick" else 2000000
@@ -219,13 +220,13 @@ def replay(path):
         print("metamorphic pair:", r["meta"])
         steps = []
         for j, s in enumerate(r["meta"]):
-            steps += [{"op": "ctx", "id": j, "vars": r["vars"], "fns": {"last": {"id": 9, "ret": "last"}}}, {"op": "exec", "ctx": j, "text": s}]
+            steps += [{"op": "ctx", "id": j, "vars": r["vars"], "fns": {"last": {"id": 9, "ret": "last"}, "rate": {"id": 10, "ret": "const", "v": ["n", "12", 0]}, "quota": {"id": 11, "ret": "const", "v": ["n", "25", 1]}}}, {"op": "exec", "ctx": j, "text": s}]
         run = common.run_vexec(steps, common.workdir(PROP, "replay"), "replay", r.get("profile", "verifdbg"))
         st = run.steps()
         print(json.dumps(st[1]), json.dumps(st[3]))
         ok = st[1].get("res") == st[3].get("res") and st[1].get("snap") == st[3].get("snap")
     else:
-        res, _ = evalcheck.run_programs(PROP, "replay", [{"tree": r["tree"], "text": r["program"], "vars": r["vars"]}], r.get("profile", "verifdbg"), ctx_fns={"last": {"id": 9, "log": False, "ret": "last"}}, check_ctx=True)
+        res, _ = evalcheck.run_programs(PROP, "replay", [{"tree": r["tree"], "text": r["program"], "vars": r["vars"]}], r.get("profile", "verifdbg"), ctx_fns={"last": {"id": 9, "log": False, "ret": "last"}, "rate": {"id": 10, "log": False, "ret": "const", "v": ["n", "12", 0]}, "quota": {"id": 11, "log": False, "ret": "const", "v": ["n", "25", 1]}}, check_ctx=True)
         print(res[0][0], res[0][1])
         ok = not res[0][0].startswith("viol")
     if not ok:
